@@ -20,7 +20,12 @@ VARIABLES l, c, bins, posT, stdT, store, frames, bad
 NoCfg == [n |-> -1]
 GeoOf(r) == [minSeg |-> r.minSeg, maxSeg |-> r.maxSeg, ax |-> r.ax, minView |-> r.minView, maxView |-> r.maxView,
              minTang |-> r.minTang, maxTang |-> r.maxTang, minTof |-> r.minTof, maxTof |-> r.maxTof]
-IsFile(r) == r.backing \in {"stream", "interfile", "hdrstream"}
+\* "sstream": ProjDataFromStream on a memory-backed iostream (separate get and put positions); its independent reader is a
+\* second view of the string buffer after every call
+IsFile(r) == r.backing \in {"stream", "interfile", "hdrstream", "sstream"}
+\* on-disk scale factor (a power of two on integer on-disk types): the value of a bin is the stored number times the scale
+\* factor; the driver's reader decodes with it, written values are multiples of it, so every path is compared exactly
+ScaleOf(r) == IF Has(r, "scale") THEN r.scale ELSE 1
 \* the in-memory store keeps its data "in the same order as what is used by copy_to and fill_from"
 LayoutOf(r) == IF r.backing = "memory" THEN StdLayout(GeoOf(r)) ELSE [byView |-> r.byView, seq |-> r.seq]
 \* Interfile headers cannot describe TOF data (data of a TOF-capable acquisition, whatever the TOF mashing) in
@@ -42,7 +47,9 @@ ObsOk(r, cc, st, pT) ==
 
 ConfigOk(r) ==
   LET gg == GeoOf(r) IN
-  /\ r.backing \in {"stream", "interfile", "hdrstream", "memory"}
+  /\ r.backing \in {"stream", "interfile", "hdrstream", "memory", "sstream"}
+  /\ ScaleOf(r) \in {1, 2, 4} /\ (r.backing = "memory" => ScaleOf(r) = 1)
+  /\ (r.backing = "sstream" => ~r.fresh)
   /\ LegalGeometry(gg) /\ r.n = NumBins(gg)
   /\ (r.backing # "memory" => IsPermutationOfSegs(gg, r.seq))
   /\ (r.backing = "memory" => T3(gg))
@@ -196,7 +203,7 @@ ExamCoreEq(e0, e) ==
   /\ (NuclideGiven(e0) => e.nuclide = e0.nuclide /\ e.halflife = e0.halflife)
 LayoutEq(r) ==
   /\ r.lay.isStream /\ r.lay.byView = c.byView /\ r.lay.bySino = ~c.byView
-  /\ r.lay.seq = c.seq /\ r.lay.off = c.off /\ r.lay.type = c.type /\ r.lay.big = c.big /\ r.lay.scale = 1024
+  /\ r.lay.seq = c.seq /\ r.lay.off = c.off /\ r.lay.type = c.type /\ r.lay.big = c.big /\ r.lay.scale = 1024 * ScaleOf(c)
 ReopenCore(r) ==
   /\ c.backing \in {"interfile", "hdrstream"}
   /\ ~r.err
@@ -273,8 +280,12 @@ Tof1Rest(r) ==
   \/ /\ ~r.err /\ ExamCoreEq(r.exam0, r.exam)
      /\ (r.e = "Reopen" => LayoutEq(r))
      /\ IF r.verr THEN r.e = "Reopen" /\ Len(r.file) < c.n ELSE ReadOk(store, LAMBDA b : TRUE, LAMBDA b : stdT[b] + 1, r.vals, c.n)
+\* C02-setbin-scale: ProjDataFromStream::set_bin_value on a store with on-disk scale factor f # 1 stores the number itself
+\*   instead of number / f: the bin then reads back as f times the value that was set (nothing else is wrong)
 Classify(r) ==
   IF c = NoCfg \/ c.backing = "multi" THEN "new"
+  ELSE IF r.e = "SetBin" /\ ScaleOf(c) # 1 /\ WriteInRange(r) /\ ~r.err /\ Len(r.vals) = 1
+          /\ ObsOk(r, c, [store EXCEPT ![BinOfRec(r)] = r.vals[1] * ScaleOf(c)], posT) THEN "C02-setbin-scale"
   ELSE IF c # NoCfg /\ Tof1 /\ r.e \in {"Reopen", "WriteToFile"} /\ (r.e = "Reopen" \/ ~c.fresh) /\ Tof1Rest(r) /\ ObsOk(r, c, store, posT)
      /\ (r.err \/ r.geo # r.geo0 \/ ~r.pdiEq)
   THEN "C02-tof1hdr"
